@@ -43,6 +43,22 @@ def wrap_writer(w, how):
 
             def mk(orig):
                 def f(value):
+                    if how >= 100 and (isinstance(value, (pytypes.GeneratorType,)) or hasattr(value, "__next__")):
+                        # k write calls: split the items at the gaps selected by the bit mask, empty lists interleaved
+                        items, mask = list(value), how - 100
+                        chunks, cur = [], []
+                        for idx, it in enumerate(items):
+                            cur.append(it)
+                            if idx < len(items) - 1 and (mask >> idx) & 1:
+                                chunks.append(cur)
+                                cur = []
+                        chunks.append(cur)
+                        r = None
+                        for ci, ch in enumerate(chunks):
+                            r = orig(ch if ci % 2 == 0 else (x for x in ch))
+                            orig([])
+                        completed[0] += 1
+                        return r
                     if how >= 2 and (isinstance(value, (pytypes.GeneratorType,)) or hasattr(value, "__next__")):
                         if how == 3:
                             value = list(value)
